@@ -17,9 +17,11 @@ def make_tree(g, rng, depth=0, n=None):
     """list of nodes: ('assign', key, value_tokens, value, delim) | ('block', kw tokens, name, children, end tokens, cls)"""
     n = rng.randrange(1, 6) if n is None else n
     out = []
+    pool = [g.ident() for _ in range(2)]
     for _ in range(n):
         if rng.random() < 0.78 or depth >= 2:
-            key = g.ident()
+            # duplicate names are legal and kept in order
+            key = rng.choice(pool) if rng.random() < 0.35 else g.ident()
             vt, v = g.value()
             # no '-' + line end inside values (recorded finding KF-C08-2) and no sets/sequences holding
             # keyword-like bare words that would confuse the expected tree
